@@ -1025,7 +1025,7 @@ def rule_g6(F):
 
 
 def rule_g9(F):
-    r = RuleResult("C04.G9", "filtermap verdict sides that stay unconstrained are forced to unit before export", floor=2)
+    r = RuleResult("C04.G9", "filtermap verdict sides that stay unconstrained are forced to unit before export (for every filtermap: the pass ends only when its loops are exhausted)", floor=3)
     cmt = [p for p in F.paths() if p.endswith("::check_module_tree")]
     fft = [p for p in F.paths() if p.endswith("::force_filtermap_types")]
     if not cmt:
@@ -1057,6 +1057,38 @@ def rule_g9(F):
                     (hir.call_def(n) or "").endswith("Type::unit") for a in c["args"] for n in hir.nodes(a, "call")):
                 unify_unit += 1
     r.inst("force_filtermap_types unifies with unit", {"unify_with_unit_sites": unify_unit})
+    # the pass sees EVERY filtermap: its loops are left only when they are exhausted (an early `return` where a `continue` was meant
+    # leaves the filtermaps declared later with an unbound side - not obtainable under their true signature)
+    if fb.mir:
+        fdefs = mir.Defs(fb)
+        rets = {bi for bi, blk in enumerate(fb.blocks) if blk["term"]["k"] == "return"}
+        reach_ret = {bi for bi in range(len(fb.blocks)) if (mir.reachable_from(fb, bi) | {bi}) & rets}
+        early = []
+        nloops = 0
+        for h, nodes in mir.natural_loops(fb):
+            nloops += 1
+            for u in nodes:
+                if fb.blocks[u].get("cleanup"):
+                    continue
+                for v in mir.succs(fb.blocks[u]):
+                    if v in nodes or v not in reach_ret or fb.blocks[v].get("cleanup"):
+                        continue
+                    t = fb.blocks[u]["term"]
+                    exhausted = False
+                    if t["k"] == "switch" and mir.is_place_op(t["o"]):
+                        for d in fdefs.whole_defs(t["o"][1][0]):
+                            if d[2] == "assign" and d[3]["rv"]["k"] == "discr" and "Option" in str(d[3]["rv"].get("ty") or ""):
+                                if any(hir.last(mir.callee_def(fb.blocks[x]["term"]) or "") == "next" for x in mir.back_calls(fb, fdefs, d[3]["rv"]["p"][0])):
+                                    exhausted = True
+                    if not exhausted:
+                        early.append((u, t.get("line")))
+        r.inst("force_filtermap_types leaves its loops only when exhausted", {"loops": nloops, "early_exits": len(early)})
+        if nloops == 0:
+            r.missing("the loop over the declarations in force_filtermap_types")
+        for u, ln in early[:1]:
+            r.bad(fft[0], "early exit from the pass", relfile(fb.file), ln or fb.line,
+                  "force_filtermap_types can return from inside its loop before every declaration has been seen: a filtermap declared after the one that takes this exit keeps an unbound "
+                  "type variable for the side it never uses and cannot be obtained under its true signature `fn(..) -> Verdict<T, ()>`")
     if unify_unit < 1:
         r.bad(fft[0], "unit", relfile(fb.file), fb.line, "force_filtermap_types no longer unifies unconstrained verdict sides with unit")
     return r
